@@ -6,8 +6,12 @@ STORE_KINDS = ["rprs", "rrs", "filter", "filter_td", "buffer_fifo", "buffer_lifo
                "bufferstore_fifo", "bufferstore_lifo"]
 
 
+BUF_KINDS = ["buffer_fifo", "buffer_lifo", "fleet"]
+ALL_KINDS = STORE_KINDS + ["slotbelt", "belt_acc", "belt_nacc"]
+
+
 def e1(n, **kw):
-    p = {"kinds": STORE_KINDS}
+    p = {"kinds": kw.pop("kinds", None) or STORE_KINDS}
     p.update(kw)
     return {"engine": "E1", "params": p, "cases": n}
 
@@ -37,41 +41,40 @@ def e3(n, **kw):
     return {"engine": "E3", "params": p, "cases": n}
 
 
-BUF_KINDS = ["buffer_fifo", "buffer_lifo", "fleet"]
 
 PLAN = {
-    "C01": {"quick": [e2(6, 2), e1(2400, profiles=["full_store", "mixed", "burst", "prio_storm"])],
-            "thorough": [e2(8, 8), e1(48000, profiles=["full_store", "mixed", "burst", "prio_storm"])]},
-    "C02": {"quick": [e2(6, 2), e1(2400, profiles=["hoarder", "mixed", "burst"])],
-            "thorough": [e2(8, 8), e1(48000, profiles=["hoarder", "mixed", "burst"])]},
-    "C04": {"quick": [e2(6, 2), e1(2400)], "thorough": [e2(8, 8), e1(48000)]},
-    "C05": {"quick": [e2(6, 2), e1(2400, profiles=["prio_storm", "full_store", "hoarder"]), {"engine": "E1p", "params": {}, "cases": 1600}],
-            "thorough": [e2(8, 8), e1(40000, profiles=["prio_storm", "full_store", "hoarder"]), {"engine": "E1p", "params": {}, "cases": 30000}]},
-    "C06": {"quick": [e2(6, 2), e1(2400, profiles=["hoarder", "mixed"])],
-            "thorough": [e2(8, 8), e1(48000, profiles=["hoarder", "mixed"])]},
-    "C07": {"quick": [e2(5, 2, illformed=True), e1(1600, illformed=0.08)],
-            "thorough": [e2(7, 8, illformed=True), e1(30000, illformed=0.08)]},
-    "C03": {"quick": [e3(1600)], "thorough": [e3(16000)]},
-    "C08": {"quick": [e3(1600)], "thorough": [e3(16000)]},
-    "C09": {"quick": [e3(1600)], "thorough": [e3(16000)]},
-    "C10": {"quick": [e3(1600)], "thorough": [e3(16000)]},
-    "C11": {"quick": [e1(2400, kinds=BUF_KINDS, probe=0.12), e3(800)],
-            "thorough": [e1(40000, kinds=BUF_KINDS, probe=0.12), e3(8000)]},
-    "C15": {"quick": [e3(1600)], "thorough": [e3(16000)]},
-    "C16": {"quick": [e3(1600, templates=["pack", "packunpack"])], "thorough": [e3(16000, templates=["pack", "packunpack"])]},
-    "C17": {"quick": [e3(1600)], "thorough": [e3(16000)]},
-    "C18": {"quick": [e3(1600), e1(1600)], "thorough": [e3(16000), e1(16000)]},
-    "C19": {"quick": [{"engine": "E7", "params": {"min_T": 120}, "cases": 96, "timeout": 1200}],
-            "thorough": [{"engine": "E7", "params": {"min_T": 120}, "cases": 1600, "timeout": 3000}]},
-    "C12": {"quick": [{"engine": "E4", "params": {}, "cases": 3200}, {"engine": "E4", "params": {"ragged": 1, "kind": "cont_nacc"}, "cases": 160}, e3(800, templates=["line", "fanin", "diamond"])],
-            "thorough": [{"engine": "E4", "params": {}, "cases": 48000}, {"engine": "E4", "params": {"ragged": 1}, "cases": 1600}, e3(8000)]},
-    "C13": {"quick": [{"engine": "E4", "params": {}, "cases": 3200}, e3(800, templates=["line", "fanin", "diamond"])],
-            "thorough": [{"engine": "E4", "params": {}, "cases": 48000}, e3(8000)]},
+    "C01": {"quick": [e2(7, 4), e1(16000, kinds=ALL_KINDS, profiles=["full_store", "mixed", "burst", "prio_storm"])],
+            "thorough": [e2(9, 16), e1(240000, kinds=ALL_KINDS, profiles=["full_store", "mixed", "burst", "prio_storm"])]},
+    "C02": {"quick": [e2(7, 4), e1(16000, kinds=ALL_KINDS, profiles=["hoarder", "mixed", "burst"])],
+            "thorough": [e2(9, 16), e1(240000, kinds=ALL_KINDS, profiles=["hoarder", "mixed", "burst"])]},
+    "C04": {"quick": [e2(7, 4), e1(16000)], "thorough": [e2(9, 16), e1(240000)]},
+    "C05": {"quick": [e2(7, 4), e1(16000, profiles=["prio_storm", "full_store", "hoarder"]), {"engine": "E1p", "params": {}, "cases": 12000}],
+            "thorough": [e2(9, 16), e1(200000, profiles=["prio_storm", "full_store", "hoarder"]), {"engine": "E1p", "params": {}, "cases": 160000}]},
+    "C06": {"quick": [e2(7, 4), e1(16000, profiles=["hoarder", "mixed"])],
+            "thorough": [e2(9, 16), e1(240000, profiles=["hoarder", "mixed"])]},
+    "C07": {"quick": [e2(6, 4, illformed=True), e1(12000, kinds=ALL_KINDS, illformed=0.08)],
+            "thorough": [e2(8, 16, illformed=True), e1(160000, kinds=ALL_KINDS, illformed=0.08)]},
+    "C03": {"quick": [e3(8000)], "thorough": [e3(80000)]},
+    "C08": {"quick": [e3(8000)], "thorough": [e3(80000)]},
+    "C09": {"quick": [e3(8000)], "thorough": [e3(80000)]},
+    "C10": {"quick": [e3(8000)], "thorough": [e3(80000)]},
+    "C11": {"quick": [e1(16000, kinds=BUF_KINDS, probe=0.12), e3(800)],
+            "thorough": [e1(200000, kinds=BUF_KINDS, probe=0.12), e3(8000)]},
+    "C15": {"quick": [e3(8000)], "thorough": [e3(80000)]},
+    "C16": {"quick": [e3(8000, templates=["pack", "packunpack"])], "thorough": [e3(80000, templates=["pack", "packunpack"])]},
+    "C17": {"quick": [e3(8000)], "thorough": [e3(80000)]},
+    "C18": {"quick": [e3(8000), e1(8000)], "thorough": [e3(80000), e1(80000)]},
+    "C19": {"quick": [{"engine": "E7", "params": {"min_T": 120}, "cases": 160, "timeout": 1200}],
+            "thorough": [{"engine": "E7", "params": {"min_T": 120}, "cases": 3200, "timeout": 6000}]},
+    "C12": {"quick": [{"engine": "E4", "params": {}, "cases": 16000}, {"engine": "E4", "params": {"ragged": 1, "kind": "cont_nacc"}, "cases": 320}, e3(4000, templates=["line", "fanin", "diamond"])],
+            "thorough": [{"engine": "E4", "params": {}, "cases": 240000}, {"engine": "E4", "params": {"ragged": 1}, "cases": 3200}, e3(40000)]},
+    "C13": {"quick": [{"engine": "E4", "params": {}, "cases": 16000}, e3(4000, templates=["line", "fanin", "diamond"])],
+            "thorough": [{"engine": "E4", "params": {}, "cases": 240000}, e3(40000)]},
     "C20": {"quick": [{"engine": "E8", "params": {"table": "matrix"}, "cases": 2592}, {"engine": "E8", "params": {"table": "invalid"}, "cases": 26},
-                      e3(1600), e1(1600, kinds=STORE_KINDS + ["slotbelt", "belt_acc", "belt_nacc"])],
+                      e3(8000), e1(8000, kinds=ALL_KINDS)],
             "thorough": [{"engine": "E8", "params": {"table": "matrix"}, "cases": 7776}, {"engine": "E8", "params": {"table": "invalid"}, "cases": 26},
-                         e3(24000), e1(24000, kinds=STORE_KINDS + ["slotbelt", "belt_acc", "belt_nacc"])]},
-    "C14": {"quick": [e5(1600), e1(800, kinds=["fleet"])], "thorough": [e5(24000), e1(8000, kinds=["fleet"])]},
+                         e3(80000), e1(80000, kinds=ALL_KINDS)]},
+    "C14": {"quick": [e5(12000), e1(6000, kinds=["fleet"])], "thorough": [e5(200000), e1(80000, kinds=["fleet"])]},
 }
 
 RULES = {
@@ -112,16 +115,16 @@ FLOORS = {
     "C04": {"quick": {"cases": 1000, "distinct_nontrivial": 300, "grants_after_wait": 3000}},
     "C05": {"quick": {"cases": 1000, "distinct_nontrivial": 300, "c05_grants_checked": 10000}},
     "C06": {"quick": {"cases": 1000, "distinct_nontrivial": 100, "c06_bindings_checked": 5000}},
-    "C03": {"quick": [e3(1600)], "thorough": [e3(16000)]},
-    "C08": {"quick": [e3(1600)], "thorough": [e3(16000)]},
-    "C09": {"quick": [e3(1600)], "thorough": [e3(16000)]},
-    "C10": {"quick": [e3(1600)], "thorough": [e3(16000)]},
-    "C11": {"quick": [e1(2400, kinds=BUF_KINDS, probe=0.12), e3(800)],
-            "thorough": [e1(40000, kinds=BUF_KINDS, probe=0.12), e3(8000)]},
-    "C15": {"quick": [e3(1600)], "thorough": [e3(16000)]},
-    "C16": {"quick": [e3(1600, templates=["pack", "packunpack"])], "thorough": [e3(16000, templates=["pack", "packunpack"])]},
-    "C17": {"quick": [e3(1600)], "thorough": [e3(16000)]},
-    "C18": {"quick": [e3(1600), e1(1600)], "thorough": [e3(16000), e1(16000)]},
+    "C03": {"quick": [e3(8000)], "thorough": [e3(80000)]},
+    "C08": {"quick": [e3(8000)], "thorough": [e3(80000)]},
+    "C09": {"quick": [e3(8000)], "thorough": [e3(80000)]},
+    "C10": {"quick": [e3(8000)], "thorough": [e3(80000)]},
+    "C11": {"quick": [e1(16000, kinds=BUF_KINDS, probe=0.12), e3(800)],
+            "thorough": [e1(200000, kinds=BUF_KINDS, probe=0.12), e3(8000)]},
+    "C15": {"quick": [e3(8000)], "thorough": [e3(80000)]},
+    "C16": {"quick": [e3(8000, templates=["pack", "packunpack"])], "thorough": [e3(80000, templates=["pack", "packunpack"])]},
+    "C17": {"quick": [e3(8000)], "thorough": [e3(80000)]},
+    "C18": {"quick": [e3(8000), e1(8000)], "thorough": [e3(80000), e1(80000)]},
     "C03": {"quick": {"cases": 800, "distinct_nontrivial": 100, "c03_inside_checks": 50000, "factory_puts": 30000}},
     "C08": {"quick": {"cases": 800, "distinct_nontrivial": 50, "c08_offers_checked": 10000}},
     "C09": {"quick": {"cases": 800, "distinct_nontrivial": 200, "discards": 3000}},
